@@ -742,6 +742,9 @@ class ExecutorBase:
                     if (bval & aval) == aval:
                         cases.append(z3.And(IV(container.term) == bval, IV(item.term) == aval))
             return z3.Or(cases)
+        if getattr(self, "lenient", False) and container.term is not None and item.term is not None:
+            self.assumptions.add("LENIENT: `in` on a value of unknown type is an uninterpreted predicate of container and item")
+            return z3.Function("in_opaque", Val, Val, z3.BoolSort())(container.term, item.term)
         raise Unsupported(f"`in` on {container.ty}: {ast.unparse(node)[:60] if node else ''}")
 
     def ev_NamedExpr(self, node, fr):
